@@ -4,48 +4,10 @@
    own them (C06 restraints, C04 ABF, C05 metadynamics); here only save / load are added on top.
    Definitions only (extracted). *)
 From Coq Require Import ZArith List Bool.
-From CV Require Import Base.Num C03.ResumeModel C06.RestraintModel.
+From CV Require Import Base.Num C03.ResumeModel.
 Import ListNotations.
 Local Open Scope Z_scope.
 
-(* ------------------------------------------------------------------------------------------------
-   Restraints (harmonic, harmonicWalls, linear; src/colvarbias_restraint.cpp)
-     colvarbias_restraint_moving::get_state_params          firstStep, stage
-     colvarbias_restraint_centers_moving::get_state_params  centers, accumulatedWork
-     colvarbias_restraint_k_moving::get_state_params        forceConstant, restraintFE, accumulatedWork
-   each written only under the flags below; set_state_params reads the same keys under the same flags. *)
-Section RestraintObject.
-  Context {T : Type} (O : NumOps T).
-
-  Record rsaved := mkRSaved {
-    sv_first : option Z; sv_stage : option Z; sv_centers : option (list T);
-    sv_k : option T; sv_FE : option T; sv_W : option T }.
-
-  Definition r_moving (c : @rcfg T) : bool := c_chg_centers c || c_chg_k c.
-  Definition r_staged (c : @rcfg T) : bool := negb (c_nstages c =? 0).
-
-  Definition r_save (c : @rcfg T) (s : @rstate T) : rsaved :=
-    mkRSaved (if r_moving c then Some (s_first s) else None)
-             (if r_moving c && r_staged c then Some (s_stage s) else None)
-             (if c_chg_centers c then Some (s_centers s) else None)
-             (if c_chg_k c then Some (s_k s) else None)
-             (if c_chg_k c && r_staged c then Some (s_FE s) else None)
-             (if r_moving c && c_acc_work c then Some (s_W s) else None).
-
-  Definition opt {A} (o : option A) (d : A) : A := match o with Some a => a | None => d end.
-
-  (* a fresh restraint (configured at step 0 of the new process), then the keys that are present *)
-  Definition r_load (c : @rcfg T) (v : rsaved) : @rstate T :=
-    mkSt (opt (sv_centers v) (c_centers0 c)) (zeros O (c_centers0 c))
-         (opt (sv_k v) (c_k0 c)) (n0 O)
-         (opt (sv_stage v) 0) (opt (sv_first v) 0)
-         (opt (sv_W v) (n0 O)) (opt (sv_FE v) (n0 O)).
-
-  Definition restraint_machine : machine (@rcfg T) (@rstate T) (list T) (@rout T) rsaved :=
-    mkMachine (init_state O)
-              (fun c s it rel xs => rstep O c s it rel false xs)
-              r_save (fun _ s => s) r_load.
-End RestraintObject.
 
 (* ------------------------------------------------------------------------------------------------
    Module-level output schedule (src/colvarmodule.cpp, calc()):
@@ -67,15 +29,6 @@ Definition module_machine : machine mcfg unit unit (bool * bool) unit :=
 Definition stateless_machine {C I Ou : Type} (f : C -> Z -> I -> Ou) : machine C unit I Ou unit :=
   mkMachine (fun _ => tt) (fun c _ it rel i => (tt, f c it i)) (fun _ _ => tt) (fun _ s => s) (fun _ _ => tt).
 
-Section HistogramRestraintObject.
-  Context {T : Type} (O : NumOps T).
-  (* colvarbias_restraint_histogram (C06 model of update()): energy and forces on the entries of a vector variable *)
-  Record hrcfg := mkHRCfg { hr_k : T; hr_pi : T; hr_sigma : T; hr_lower : T; hr_width : T; hr_ref : list T }.
-  Definition histrestraint_machine : machine hrcfg unit (list T) (T * list T) unit :=
-    stateless_machine (fun c _ xs =>
-      (hist_energy O (hr_k c) (hr_pi c) (hr_sigma c) (hr_lower c) (hr_width c) (hr_ref c) xs,
-       hist_forces O (hr_k c) (hr_pi c) (hr_sigma c) (hr_lower c) (hr_width c) (hr_ref c) xs)).
-End HistogramRestraintObject.
 
 (* ------------------------------------------------------------------------------------------------
    Histogram on scalar variables (src/colvarbias_histogram.cpp, update(): bin of the current values;
@@ -120,20 +73,6 @@ Section HistogramObject.
     mkMachine (fun _ _ => 0) h_step (fun _ g => g) (fun _ g => g) (fun _ g => g).
 End HistogramObject.
 
-(* ------------------------------------------------------------------------------------------------
-   ABMD (src/colvarbias_abmd.cpp): refValue (and the three parameters) are written and read back. *)
-Section AbmdObject.
-  Context {T : Type} (O : NumOps T).
-  Record acfg := mkACfg { a_k : T; a_stop : T; a_decreasing : bool }.
-  Definition abmd_machine : machine acfg (@abmd_state T) T (T * T) (T * (T * T * bool)) :=
-    mkMachine (fun _ => mkAb false (n0 O))
-              (fun c s it rel x => abmd_step O (a_k c) (a_stop c) (a_decreasing c) s x)
-              (* get_state_params writes ref_val even before the first update (it is then 0) *)
-              (fun c s => (ab_ref s, (a_stop c, a_k c, a_decreasing c)))
-              (fun _ s => s)
-              (* set_state_params: ref_val = refValue; ref_initialized = true (parameters: same configuration) *)
-              (fun c v => mkAb true (fst v)).
-End AbmdObject.
 
 (* ------------------------------------------------------------------------------------------------
    A scalar variable with an extended Lagrangian coordinate, driven by a bias object B whose input is the
